@@ -2,6 +2,7 @@ package documentstore
 
 import (
 	"context"
+	"encoding/json"
 
 	ipfslog "berty.tech/go-ipfs-log"
 	"berty.tech/go-orbit-db/iface"
@@ -308,3 +309,5 @@ func VerifC07Delete() {
 		vstub.Assert(o.OpLog().Len() == before, "C07 refused Delete appends nothing")
 	}
 }
+
+func jsonUnmarshal(data []byte, v interface{}) error { return json.Unmarshal(data, v) }
